@@ -56,8 +56,8 @@ ASSUMPTIONS = [
     'with tied sample values the reported quantile must lie in the bracket [max{x: F+(x) < q}, max{x: F-(x) <= q}]',
     'single-rank run (the derived-trace re-ordering across MPI ranks is C18)',
 ]
-_Q = {'posterior': 70}
-_T = {'posterior': 700}
+_Q = {'posterior': 62, 'reuse': 8}
+_T = {'posterior': 650, 'reuse': 60}
 BUDGET = {
     'quick': [dict(name='boundscheck', env={'NUMBA_BOUNDSCHECK': '1'}, shards=6, cases=_Q)],
     'thorough': [dict(name='boundscheck', env={'NUMBA_BOUNDSCHECK': '1'}, shards=16, cases=_T)],
@@ -68,7 +68,7 @@ REQUIRED = dict(
               'get_solution-yields-map-and-median',
               'mean-is-weighted-mean', 'spectrum-at-map:native', 'spectrum-at-map:binned', 'profiles-at-median',
               'derived-trace-per-sample-in-order', 'derived-summaries'],
-    classes=['sampler:nestle', 'sampler:multinest', 'sampler:polychord', 'judged:nestle', 'judged:multinest',
+    classes=['reuse:set_observed', 'reuse:fit-2', 'sampler:nestle', 'sampler:multinest', 'sampler:polychord', 'judged:nestle', 'judged:multinest',
              'judged:polychord', 'judged:polychord:cluster-1', 'judged:polychord:cluster-2-equal',
              'judged:multinest:multimodal-off', 'judged:multinest:multimodal-1-mode',
              'judged:multinest:multimodal-2-modes-equal', 'multinest:multimodal-off',
@@ -225,7 +225,7 @@ LAYOUTS = {
 }
 
 
-def wl_posterior(ctx, rng):
+def wl_posterior(ctx, rng, rounds=1):
     from taurex import OutputSize
     idx = ctx.case['index'] + ctx.shard
     sampler = SAMPLERS[idx % 3]
@@ -244,121 +244,135 @@ def wl_posterior(ctx, rng):
     order = [n for n in model.fittingParameters if n in chosen]
     decls = [L.declare_prior(rng, n, cat[n], False) for n in order]
     D = len(decls)
-    wn = next(iter(spec['tables'].values()))['wn']
-    layout = L.draw_obs_layout(rng, wn, kmax=20)
-    if layout is None:
-        ctx.event('domain-skip:no-layout-with-width-condition')
-        return
-    truth = L.shadow_eval(spec, [])
-    if 'rejected' in truth or not np.all(np.isfinite(truth['depth'])):
-        ctx.event('domain-skip:truth-not-a-valid-atmosphere')
-        return
-    mt, _ = L.bin_ref(truth['wn'], truth['depth'], layout['c'], layout['w'])
-    K = layout['K']
-    sigma = float(np.mean(mt)) * 10 ** rng.uniform(-3.5, -2.0) * rng.uniform(0.5, 2.0, K)
-    y = mt + sigma * rng.normal(0, 1, K)
-    obs, _ = L.make_observation(rng, layout, y, sigma, shuffle=bool(rng.random() < 0.5))
-    # ---- the designed sample set
-    N = int([1, 2, 3, 10, 200, 0, 0][ctx.case['index'] % 7] or rng.integers(4, 60))
-    two = layout_kind in ('multimodal-2-modes-equal', 'multimodal-2-modes-ragged', 'cluster-2-equal', 'cluster-2-ragged')
-    if two and N < 2:
-        N = 2
-    if layout_kind.endswith('equal') and N % 2:
-        N += 1
-    if layout_kind.endswith('ragged') and N < 3:
-        N = 3
-    wkind = ['equal', 'dominant', 'zeros', 'ties', 'descending', 'random'][int(rng.integers(0, 6))]
-    tied = bool(rng.random() < 0.3)
-    x = draw_samples(rng, decls, N, tied)
-    w = draw_weights(rng, N, wkind)
-    ll = -0.5 * rng.chisquare(max(D, 1), N) - 3.0
-    if two:
-        n1 = N // 2 if layout_kind.endswith('equal') else int(rng.choice([k for k in range(1, N) if k != N - k]))
-        groups = [np.arange(0, n1), np.arange(n1, N)]
-        for g in groups:                                   # every mode carries weight
-            if not np.any(w[g] > 0):
-                w[g[0]] = 0.25 * (w.max() if w.max() > 0 else 1.0)
-    else:
-        groups = [np.arange(N)]
-    agree = bool(rng.random() < 0.5)
-    if sampler == 'polychord' and agree:
-        for g in groups:                                   # greatest likelihood on the sample of greatest weight
-            ll[g[int(np.argmax(w[g]))]] = ll[g].max() + 1.0
-    design = {'samples': x, 'weights': w, 'loglike': ll, 'logz': float(rng.uniform(-50, -5)), 'logzerr': float(rng.uniform(0.01, 0.5))}
-    design['modes' if sampler == 'multinest' else 'clusters'] = groups
-    kw = {}
-    if sampler == 'multinest':
-        kw['search_multi_modes'] = layout_kind != 'multimodal-off'
-    if sampler == 'polychord':
-        kw['cluster'] = layout_kind != 'cluster-off'
-    kw['sigma_fraction'] = float(rng.choice([0.1, 0.5, 1.0]))
-    dsel = [[], ['mu'], ['mu', 'logg', 'avg_T']][int(rng.integers(0, 3))]
-    opt = L.make_optimizer(sampler, obs, model, ctx.scratch, tag, **kw)
-    L.disable_default_fits(opt, model, obs)
-    for d in decls:
-        L.apply_prior(opt, d)
-    for n in list(model.derivedParameters):
-        (opt.enable_derived if n in dsel else opt.disable_derived)(n)
-    Rr = _rec['R']
-    Rr.reset()
-    Rr.script = [{'u': [0.5] * D}]
-    Rr.design = design
-    distinct_cols = all(len(np.unique(x[:, j])) == N for j in range(D))
-    ctx.observe('sampler:' + sampler, '%s:%s' % (sampler, layout_kind), 'N:%d' % N, 'D:%d' % D, 'weights:' + wkind,
-                'values:distinct' if distinct_cols else 'values:tied', 'derived:' + (','.join(dsel) or 'none'))
-    ctx.feature(sampler=sampler, layout=layout_kind, N=N, D=D, weights=wkind, tied=tied, derived=dsel,
-                names=[d['name'] for d in decls], priors=[d['kind'] for d in decls],
-                min_rows_in_a_file=int(min(len(g) for g in groups)), group_sizes=[len(g) for g in groups],
-                zero_weights_per_group=[int(np.sum(w[g] == 0)) for g in groups],
-                subsample_per_group=[int(len(g) * kw['sigma_fraction']) for g in groups])
-    size = [OutputSize.heavy, OutputSize.light, OutputSize.lighter][int(rng.integers(0, 3))]
-    try:
-        sol = opt.fit(output_size=size)
-    except Exception as e:                                 # decided by the classifier from the designed layout
-        import traceback
-        frames = [fr.name for fr in traceback.extract_tb(e.__traceback__) if '/taurex/' in fr.filename]
+    opt = None
+    for rnd in range(rounds):
+        wn = next(iter(spec['tables'].values()))['wn']
+        layout = L.draw_obs_layout(rng, wn, kmax=20)
+        if layout is None:
+            ctx.event('domain-skip:no-layout-with-width-condition')
+            return
+        truth = L.shadow_eval(spec, [])
+        if 'rejected' in truth or not np.all(np.isfinite(truth['depth'])):
+            ctx.event('domain-skip:truth-not-a-valid-atmosphere')
+            return
+        mt, _ = L.bin_ref(truth['wn'], truth['depth'], layout['c'], layout['w'])
+        K = layout['K']
+        sigma = float(np.mean(mt)) * 10 ** rng.uniform(-3.5, -2.0) * rng.uniform(0.5, 2.0, K)
+        y = mt + sigma * rng.normal(0, 1, K)
+        obs, _ = L.make_observation(rng, layout, y, sigma, shuffle=bool(rng.random() < 0.5))
+        # ---- the designed sample set
+        N = int([1, 2, 3, 10, 200, 0, 0][ctx.case['index'] % 7] or rng.integers(4, 60))
+        two = layout_kind in ('multimodal-2-modes-equal', 'multimodal-2-modes-ragged', 'cluster-2-equal', 'cluster-2-ragged')
+        if two and N < 2:
+            N = 2
+        if layout_kind.endswith('equal') and N % 2:
+            N += 1
+        if layout_kind.endswith('ragged') and N < 3:
+            N = 3
+        wkind = ['equal', 'dominant', 'zeros', 'ties', 'descending', 'random'][int(rng.integers(0, 6))]
+        tied = bool(rng.random() < 0.3)
+        x = draw_samples(rng, decls, N, tied)
+        w = draw_weights(rng, N, wkind)
+        ll = -0.5 * rng.chisquare(max(D, 1), N) - 3.0
+        if two:
+            n1 = N // 2 if layout_kind.endswith('equal') else int(rng.choice([k for k in range(1, N) if k != N - k]))
+            groups = [np.arange(0, n1), np.arange(n1, N)]
+            for g in groups:                                   # every mode carries weight
+                if not np.any(w[g] > 0):
+                    w[g[0]] = 0.25 * (w.max() if w.max() > 0 else 1.0)
+        else:
+            groups = [np.arange(N)]
+        agree = bool(rng.random() < 0.5)
+        if sampler == 'polychord' and agree:
+            for g in groups:                                   # greatest likelihood on the sample of greatest weight
+                ll[g[int(np.argmax(w[g]))]] = ll[g].max() + 1.0
+        design = {'samples': x, 'weights': w, 'loglike': ll, 'logz': float(rng.uniform(-50, -5)), 'logzerr': float(rng.uniform(0.01, 0.5))}
+        design['modes' if sampler == 'multinest' else 'clusters'] = groups
+        kw = {}
+        if sampler == 'multinest':
+            kw['search_multi_modes'] = layout_kind != 'multimodal-off'
+        if sampler == 'polychord':
+            kw['cluster'] = layout_kind != 'cluster-off'
+        kw['sigma_fraction'] = float(rng.choice([0.1, 0.5, 1.0]))
+        dsel = [[], ['mu'], ['mu', 'logg', 'avg_T']][int(rng.integers(0, 3))]
+        if opt is None:
+            opt = L.make_optimizer(sampler, obs, model, ctx.scratch, tag, **kw)
+            L.disable_default_fits(opt, model, obs)
+            for d in decls:
+                L.apply_prior(opt, d)
+            kw0 = dict(kw)
+        else:
+            # the SAME optimizer object is pointed to another observation (other bins, other error bars) and fitted
+            # again, as a script looping over observations does; sampler options stay those of the first fit
+            kw = dict(kw0)
+            opt.set_observed(obs)
+            ctx.observe('reuse:set_observed', 'reuse:fit-%d' % (rnd + 1))
+        for n in list(model.derivedParameters):
+            (opt.enable_derived if n in dsel else opt.disable_derived)(n)
+        Rr = _rec['R']
+        Rr.reset()
+        Rr.script = [{'u': [0.5] * D}]
+        Rr.design = design
+        distinct_cols = all(len(np.unique(x[:, j])) == N for j in range(D))
+        ctx.observe('sampler:' + sampler, '%s:%s' % (sampler, layout_kind), 'N:%d' % N, 'D:%d' % D, 'weights:' + wkind,
+                    'values:distinct' if distinct_cols else 'values:tied', 'derived:' + (','.join(dsel) or 'none'))
+        ctx.feature(sampler=sampler, layout=layout_kind, N=N, D=D, weights=wkind, tied=tied, derived=dsel,
+                    names=[d['name'] for d in decls], priors=[d['kind'] for d in decls],
+                    min_rows_in_a_file=int(min(len(g) for g in groups)), group_sizes=[len(g) for g in groups],
+                    zero_weights_per_group=[int(np.sum(w[g] == 0)) for g in groups],
+                    subsample_per_group=[int(len(g) * kw['sigma_fraction']) for g in groups])
+        size = [OutputSize.heavy, OutputSize.light, OutputSize.lighter][int(rng.integers(0, 3))]
         try:
-            shapes = [list(np.shape(v)) for v in next(iter(opt.get_solution()))[1]]
-        except Exception:
-            shapes = None
-        ctx.check('fit-returns-a-solution', False, exception=type(e).__name__, message=str(e)[:300], frames=frames[-8:],
-                  map_shapes=shapes)
-        ctx.sig('raised', sampler, layout_kind, N, D, wkind, type(e).__name__)
-        return
-    finally:
-        import taurex.log
-        taurex.log.disableLogging()
-    ctx.check('fit-returns-a-solution', True)
-    if sampler == 'multinest' and layout_kind == 'multimodal-off':
-        groups = [np.arange(N)]
-    if sampler == 'polychord' and layout_kind == 'cluster-off':
-        groups = [np.arange(N)]
-    keys = sorted(k for k in sol if k.startswith('solution'))
-    ok = ctx.check('solutions-reported', keys == ['solution%d' % k for k in range(len(groups))], got=keys, want=len(groups))
-    if not ok:
-        return
-    fit_names = [('log_' + d['name']) if d['space'] == 'log' else d['name'] for d in decls]
-    ctx.observe('judged:' + sampler, 'judged:%s:%s' % (sampler, layout_kind))
-    # get_solution() yields (index, MAP vector, median vector, extras) -- the vectors post-processing is run at
-    reported = {}
-    for sidx, vmap, vmed, _extra in opt.get_solution():
-        reported[int(sidx)] = (np.array([np.ravel(v)[0] for v in vmap], dtype=float),
-                               np.array([np.ravel(v)[0] for v in vmed], dtype=float))
-    map_key = 'map' if sampler == 'nestle' else 'nest_map'
-    for k in range(len(groups)):
-        fpk = sol['solution%d' % k]['fit_params']
-        ok = k in reported and list(fpk) == fit_names
-        if ok:
-            ok = np.array_equal(reported[k][0], np.array([np.ravel(fpk[n][map_key])[0] for n in fit_names], dtype=float)) and \
-                np.array_equal(reported[k][1], np.array([np.ravel(fpk[n]['value'])[0] for n in fit_names], dtype=float))
-        ctx.check('get_solution-yields-map-and-median', ok, solution=k, sampler=sampler, layout=layout_kind)
-    for k, g in enumerate(groups):
-        judge_solution(ctx, opt, sol['solution%d' % k], k, x[g], w[g], ll[g], decls, fit_names, spec, layout, dsel, sampler,
-                       dict(sampler=sampler, layout=layout_kind, solution=k, N=len(g), weights=wkind))
-    ctx.sig(sampler, layout_kind, N, D, wkind, tied, tuple(dsel), tuple(fit_names), spec['nlayers'], round(spec['planet_mass'], 6))
-    s0 = sol['solution0']['fit_params']
-    ctx.sample({'sampler': sampler, 'layout': layout_kind, 'N': N, 'weights': wkind, 'tied_values': tied, 'derived': dsel,
-                'fit_params': {n: {q: float(np.ravel(s0[n][q])[0]) for q in ('value', 'sigma_m', 'sigma_p')} for n in fit_names}})
+            sol = opt.fit(output_size=size)
+        except Exception as e:                                 # decided by the classifier from the designed layout
+            import traceback
+            frames = [fr.name for fr in traceback.extract_tb(e.__traceback__) if '/taurex/' in fr.filename]
+            try:
+                shapes = [list(np.shape(v)) for v in next(iter(opt.get_solution()))[1]]
+            except Exception:
+                shapes = None
+            ctx.check('fit-returns-a-solution', False, exception=type(e).__name__, message=str(e)[:300], frames=frames[-8:],
+                      map_shapes=shapes)
+            ctx.sig('raised', sampler, layout_kind, N, D, wkind, type(e).__name__)
+            return
+        finally:
+            import taurex.log
+            taurex.log.disableLogging()
+        ctx.check('fit-returns-a-solution', True)
+        if sampler == 'multinest' and layout_kind == 'multimodal-off':
+            groups = [np.arange(N)]
+        if sampler == 'polychord' and layout_kind == 'cluster-off':
+            groups = [np.arange(N)]
+        keys = sorted(k for k in sol if k.startswith('solution'))
+        ok = ctx.check('solutions-reported', keys == ['solution%d' % k for k in range(len(groups))], got=keys, want=len(groups))
+        if not ok:
+            return
+        fit_names = [('log_' + d['name']) if d['space'] == 'log' else d['name'] for d in decls]
+        ctx.observe('judged:' + sampler, 'judged:%s:%s' % (sampler, layout_kind))
+        # get_solution() yields (index, MAP vector, median vector, extras) -- the vectors post-processing is run at
+        reported = {}
+        for sidx, vmap, vmed, _extra in opt.get_solution():
+            reported[int(sidx)] = (np.array([np.ravel(v)[0] for v in vmap], dtype=float),
+                                   np.array([np.ravel(v)[0] for v in vmed], dtype=float))
+        map_key = 'map' if sampler == 'nestle' else 'nest_map'
+        for k in range(len(groups)):
+            fpk = sol['solution%d' % k]['fit_params']
+            ok = k in reported and list(fpk) == fit_names
+            if ok:
+                ok = np.array_equal(reported[k][0], np.array([np.ravel(fpk[n][map_key])[0] for n in fit_names], dtype=float)) and \
+                    np.array_equal(reported[k][1], np.array([np.ravel(fpk[n]['value'])[0] for n in fit_names], dtype=float))
+            ctx.check('get_solution-yields-map-and-median', ok, solution=k, sampler=sampler, layout=layout_kind)
+        for k, g in enumerate(groups):
+            judge_solution(ctx, opt, sol['solution%d' % k], k, x[g], w[g], ll[g], decls, fit_names, spec, layout, dsel, sampler,
+                           dict(sampler=sampler, layout=layout_kind, solution=k, N=len(g), weights=wkind))
+        ctx.sig(sampler, layout_kind, N, D, wkind, tied, tuple(dsel), tuple(fit_names), spec['nlayers'], round(spec['planet_mass'], 6))
+        s0 = sol['solution0']['fit_params']
+        ctx.sample({'sampler': sampler, 'layout': layout_kind, 'N': N, 'weights': wkind, 'tied_values': tied, 'derived': dsel,
+                    'fit_params': {n: {q: float(np.ravel(s0[n][q])[0]) for q in ('value', 'sigma_m', 'sigma_p')} for n in fit_names}})
+
+
+def wl_reuse(ctx, rng):
+    wl_posterior(ctx, rng, rounds=int(rng.integers(2, 4)))
 
 
 def judge_solution(ctx, opt, sol, k, x, w, ll, decls, fit_names, spec, layout, dsel, sampler, base):
@@ -493,7 +507,7 @@ def judge_derived_summary(ctx, gt, tr, w, got, b):
     ctx.close('derived-summaries', got['mean'], mean_ref, 1e-12, atol=1e-12 * scale, what='mean', **b)
 
 
-WORKLOADS = {'posterior': wl_posterior}
+WORKLOADS = {'posterior': wl_posterior, 'reuse': wl_reuse}
 
 LEVEL_TEXT = ('Exploration by runtime monitoring of designed posteriors: sample sets with chosen sizes, weight patterns '
               '(equal, dominant, exact zeros, ties, descending), tied or distinct values and mode / cluster layouts are handed to '
